@@ -60,6 +60,7 @@ func vxCheckExact(n int, q, c float64, res QuantileCIResult) {
 // LoOrder..HiOrder-1, is at least c, the interval contains the binomial mode, at least one of its end buckets is needed
 // to reach c, intervals are nested as c grows, and when Ambiguous is set the interval shifted up by one has the same Confidence".
 //
+//vx:timeout 60000
 //vx:mode FP
 //vx:solver cvc5
 //vx:maxdec 100000
